@@ -567,7 +567,9 @@ Definition users_of (l : list ecred) : list (string * string) :=
   flat_map (fun e => if String.eqb (cred_user e) EmptyString || negb (e_stored e) then []
                      else [(cred_user e, e_pass e)]) l.
 
-Inductive eop := EUpdate (l : list ecred) | EReq (r : request).
+(** [EReload]: the pipeline is updated: a new Validator generation is built, inherits, the old one is
+    closed; the new generation reads the prefix again, i.e. the latest delivered set *)
+Inductive eop := EUpdate (l : list ecred) | EReq (r : request) | EReload.
 
 Definition basic_cfg (users : list (string * string)) : config :=
   {| c_headers := None; c_jwt := None; c_sig := None; c_basic := Some users |}.
@@ -580,8 +582,9 @@ Fixpoint etcd_run (q : quirks) (o : oracle) (alive : bool) (users : list (string
   | [] => []
   | EUpdate l :: t => etcd_run q o alive (if alive then users_of l else users) t
   | EReq r :: t => handle q o (basic_cfg users) r 0 0 :: etcd_run q o alive users t
+  | EReload :: t => etcd_run q o alive users t
   end.
 
 (** the user set in force after a history *)
 Definition current_users (alive : bool) (init : list (string * string)) (ops : list eop) : list (string * string) :=
-  fold_left (fun u op => match op with EUpdate l => if alive then users_of l else u | EReq _ => u end) ops init.
+  fold_left (fun u op => match op with EUpdate l => if alive then users_of l else u | _ => u end) ops init.
